@@ -55,6 +55,45 @@ GRAMMARS_EMPTY = {
     'nullamb': (Grammar([Rule('start', [[N('a'), N('a')]]), Rule('a', [[A], []])], declare=['A']), ['A'], 2),
 }
 
+
+def _tie_grammars():
+    """Grammars without priorities in which many derivations tie, so that the choice rests on lark's internal orders (prediction lists,
+    column insertion, packed-node insertion): three hand-written ones with several non-terminals in leftmost position and a fixed
+    family of small generated ones (a deterministic generator, not a random sample per run)."""
+    X, Y = T('X'), T('Y')
+    e, t, a, s = N('expr'), N('term'), N('atom'), N('start')
+    out = {
+        'tie1': Grammar([Rule('start', [[t, t, t], [e, t]]), Rule('expr', [[Y, t, t], [X]]), Rule('term', [[e, X, e], [t, t], [X]])], declare=['X', 'Y']),
+        'tie2': Grammar([Rule('start', [[t, X], [Y]]), Rule('expr', [[t, e], [X]]), Rule('term', [[t, a], [X]]), Rule('atom', [[e], [t, e, a], [X]])], declare=['X', 'Y']),
+        'tie3': Grammar([Rule('start', [[e, a, t]]), Rule('expr', [[e, Y, a], [t, X], [Y]]), Rule('term', [[a], [e, t, a], [Y]]), Rule('atom', [[a, a], [Y]])],
+                        declare=['X', 'Y']),
+    }
+    pool = [e, t, a, X, Y]
+    state = 12345
+    def nxt(n):
+        nonlocal state
+        state = (state * 1103515245 + 12345) % (1 << 31)
+        return (state >> 8) % n
+    for k in range(24):
+        rules = []
+        for name in ('start', 'expr', 'term', 'atom'):
+            alts = []
+            for _ in range(1 + nxt(2)):
+                alt = [pool[nxt(5)] for _ in range(1 + nxt(3))]
+                if alt not in alts and alt != [N(name)] and [x.name for x in alt] != [name]:
+                    alts.append(alt)
+            last = [X] if nxt(2) else [Y]
+            if name == 'start':
+                last = [e, t] if nxt(2) else [t, a]
+            if last not in alts:
+                alts.append(last)
+            rules.append(Rule(name, alts))
+        out['gen%d' % k] = Grammar(rules, declare=['X', 'Y'])
+    return out
+
+
+GRAMMARS_DET = {k: (g, ['X', 'Y'], 4) for k, g in _tie_grammars().items()}
+
 TXT_GRAMMARS = {
     # a terminal that can itself begin with ignorable text: "skip the ignored text first, then match" competes with the direct match
     'ignstart': (Grammar([Rule('start', [[T('A'), Plus(N('x'))]]), Rule('x', [[T('TB')], [T('B')]])],
@@ -253,7 +292,7 @@ from vfw import hs
 from vfw.refsem import cfg, shape
 from lark import Lark
 out = {}
-for gname, (G, names, maxlen) in list(c05.GRAMMARS.items()) + list(c05.GRAMMARS_EMPTY.items()):
+for gname, (G, names, maxlen) in list(c05.GRAMMARS.items()) + list(c05.GRAMMARS_EMPTY.items()) + list(c05.GRAMMARS_DET.items()):
     for variant, src in (('plain', G.render()), ('prio', c05._with_prios(G).render())):
         lex = hs.make_list_lexer(names)
         lk = Lark(src, parser='earley', lexer=lex, ambiguity='resolve')
